@@ -131,7 +131,10 @@ var checkNormal = ev.Register("normal", func(c *NormCase) ev.Outcome {
 	}
 	// quantile function
 	inv := d.InvCDF
-	for _, pf := range c.Ps {
+	// every case also probes the floats adjacent to the ends of [0,1] from outside and inside
+	edgePs := []ev.F{ev.F(math.Nextafter(1, 2)), ev.F(1 + 0x1p-51), ev.F(1 + 0x1p-50), ev.F(-5e-324), ev.F(-0x1p-1022),
+		ev.F(math.Nextafter(1, 0)), ev.F(5e-324), 0, 1, ev.F(math.Inf(1)), ev.F(math.Inf(-1))}
+	for _, pf := range append(append([]ev.F(nil), c.Ps...), edgePs...) {
 		p := float64(pf)
 		x := inv(p)
 		switch {
